@@ -312,6 +312,14 @@ func checkTxHooks(r *Run, p *Prog) {
 		}
 		// argument
 		arg := ast.Unparen(calls[0].Args[0])
+		// a named local or constant stands for its single definition
+		if o := objOf(fn, arg); o != nil {
+			if c, isConst := o.(*types.Const); isConst && c.Val().String() == "false" {
+				arg = ast.NewIdent("false")
+			} else if rhs, _, d := varDefinedBy(fn, o); d {
+				arg = ast.Unparen(rhs)
+			}
+		}
 		argOK := false
 		if spec[0] == "Commit" {
 			ev := errVarOfCall(fn, under)
